@@ -371,7 +371,10 @@ impl ChannelMetrics {
             self.latency + transmission_time
         } else {
             let perc = rng.sample(Uniform::new(0.0f64, self.jitter.as_secs_f64()).unwrap());
-            self.latency + transmission_time + Duration::from_secs_f64(perc)
+            // The sample lies in [0, jitter). Converting it to whole nanoseconds rounds to
+            // the nearest one, which could yield `jitter` itself: keep it below.
+            let jitter = Duration::from_secs_f64(perc).min(self.jitter - Duration::from_nanos(1));
+            self.latency + transmission_time + jitter
         }
     }
 
